@@ -113,6 +113,24 @@ def directed(rng):
     return out, fsteps
 
 
+def preset_scripts():
+    """Typed pins with caller-preset allocations (as the adder sends them / as the RPC Cluster.Pin accepts them) x request
+    factors unset / explicit x cluster defaults -1 / positive."""
+    out = []
+
+    def t(c, ty, d, f, al, name="adder"):
+        return {"op": "rpcpin", "p": {"cid": c, "type": ty, "mode": "dir" if d == 0 else "rec", "depth": d, "rmin": f[0],
+                                      "rmax": f[1], "allocs": al, "name": name, "exp": "none", "meta": [], "orig": [], "ua": [],
+                                      "upd": "", "ref": ""}}
+    for d in ((-1, -1), (1, 2), (2, 3)):
+        for f in ((0, 0), (-1, -1), (1, 2), (0, 2)):
+            steps = [t("c1", "data", -1, f, ["p3", "p2"]), t("c3", "data", -1, f, ["p1"]), t("s1", "shard", 1, f, ["p2"]),
+                     t("c1", "data", -1, f, ["p3", "p2"]), t("c1", "data", -1, f, ["p1"], name="again"),
+                     {"op": "unpin", "cid": "c3"}, t("c3", "data", 0, f, ["p3", "p1", "p2"])]
+            out.append({"src": "preset", "env": env(d=d), "pre": [], "steps": steps})
+    return out
+
+
 def logfault_scripts():
     """Consensus faults: LogUnpin failing for a shard in either position / the cluster-DAG / the meta pin / a data pin,
     LogPin failing; each followed by a retry once the fault is gone (which must finish the removal / store the pin)."""
@@ -361,6 +379,7 @@ def generate(ctx):
     scripts += sweep
     scripts += fault_scripts()
     scripts += logfault_scripts()
+    scripts += preset_scripts()
     scripts += deferred_scripts(ctx, rng)
     # follower scripts on a loaded pinset (taken from a simulated history's initial context when there is one)
     ctxs = [s["pre"] for s in scripts if s["src"] == "sim" and len(s["pre"]) > 1]
